@@ -247,6 +247,15 @@ def allocation_of(arg, env):
     return None
 
 
+def _class_invariants(cls):
+    """constructor-enforced inequalities A <= B between the atoms of a class, as (A, B, text)"""
+    if cls == "BitMaskedArray":
+        length = atom(unparse(cexpr(("member", ("this",), "length_"))))
+        mask8 = pmul(P(8), atom(unparse(cexpr(("mcall", "length", None, ("member", ("this",), "mask_"), ())))))
+        return [(length, mask8, "length_ <= 8 * mask_.length() (BitMaskedArray constructor)")]
+    return []
+
+
 def rule_kbound(rep, fb, select_site=None, floor=150):
     r = rep.rule("KBOUND.affine", "for every kernel out-parameter whose writes are affine in the kernel's loop variables, the required length (largest index written + 1, as a polynomial of the kernel's scalar arguments, "
                  "actual arguments substituted) does not exceed the length of the buffer that the calling function allocated for it (allocation - required has only non-negative coefficients)", floor=floor)
@@ -355,6 +364,14 @@ def rule_kbound(rep, fb, select_site=None, floor=150):
                     if tk in table:
                         r.excepted(tk, table[tk])
                         continue
+                    # neither side dominates symbolically; a class invariant A <= B settles it when the shortfall is exactly B - A:
+                    # the buffer is too small for every object in which the invariant is strict
+                    inv = [(a_, b_, txt) for a_, b_, txt in _class_invariants(s.func["cls"]) if padd(b_, a_, -1) == neg]
+                    if inv:
+                        worst_ok = False
+                        r.fail(tk, "%s:%d" % (s.func["file"], s.line), "%s writes %s[0 .. %s) (kernel %s line %d) but the buffer passed is %s, i.e. %s elements: too small by %s, which is positive whenever %s holds strictly" % (
+                            s.name, pname, pstr(need), impl["name"], line, atext, pstr(apoly), pstr(neg), inv[0][2]))
+                        break
                     worst_ok = None
                     nund += 1
                     break
